@@ -94,7 +94,7 @@ def exec_commands(run, exe, cmds, name, per_cmd_timeout=30, env=None):
         if skip:
             args += ['--skip', str(skip)]
         try:
-            r = subprocess.run(args, capture_output=True, text=True, timeout=max(120, total * 2), env=e)
+            r = subprocess.run(args, capture_output=True, text=True, timeout=min(7200, max(120, total * 2)), env=e)
         except subprocess.TimeoutExpired:
             raise MachineryError('executor did not finish: ' + name)
         if r.returncode == 0:
